@@ -255,29 +255,55 @@ func runTree(t *Node, skip, rev, nocall *big.Int, universe []common.Address) *ru
 	adb.IntermediateRoot(false)
 
 	out := &runOut{adb: adb, db: adbase}
-	adb.Prepare(txHashA, common.Hash{}, 0)
-	evm := vm.NewEVMWithNFT(vmContext(skip, rev, nocall), adb, adb)
+	topLevel := func(n *Node, again *Item, txi int) {
+		h := txHashA
+		h[31] = byte(txi)
+		adb.Prepare(h, common.Hash{}, txi)
+		evm := vm.NewEVMWithNFT(vmContext(skip, rev, nocall), adb, adb)
+		var retLogs []*types.Log
+		var cerr error
+		switch {
+		case again != nil:
+			_, _, retLogs, cerr = evm.Call(vm.AccountRef(originAddr), nodeAddr(int(again.A)), nil, rootGas, new(big.Int).SetUint64(again.B))
+		case nocall != nil && nocall.Bit(n.ID) == 1:
+			// the top-level call is not made at all: plain before/after comparison
+		case isCreateKind(n.Kind):
+			init := comp.rootInit
+			if init == nil {
+				init = comp.inits[n.ID]
+			}
+			g := rootGas
+			if n.End == "codestore" {
+				g = trampolineGas
+			}
+			_, _, _, retLogs, cerr = evm.Create(vm.AccountRef(originAddr), init, g, new(big.Int).SetUint64(n.Val))
+		default:
+			_, _, retLogs, cerr = evm.Call(vm.AccountRef(originAddr), nodeAddr(n.ID), nil, rootGas, new(big.Int).SetUint64(n.Val))
+		}
+		if cerr != nil {
+			out.Err += fmt.Sprintf("tx%d:%s;", txi, cerr.Error())
+		}
+		for _, l := range retLogs {
+			out.RetLogs = append(out.RetLogs, fmtRetLog(l))
+		}
+		for _, l := range adb.GetLogs(h) {
+			out.Logs = append(out.Logs, fmtLog(l))
+		}
+	}
 	curTrace = &out.Trace
-	var retLogs []*types.Log
-	var cerr error
-	if nocall != nil && nocall.Bit(t.ID) == 1 {
-		// the top-level call is not made at all: plain before/after comparison
-	} else if isCreateKind(t.Kind) {
-		_, _, _, retLogs, cerr = evm.Create(vm.AccountRef(originAddr), comp.rootInit, rootGas, new(big.Int))
+	if t.Kind == kSEQ {
+		for i := range t.Items {
+			if t.Items[i].Child != nil {
+				topLevel(t.Items[i].Child, nil, i)
+			} else if t.Items[i].Op == "again" {
+				topLevel(nil, &t.Items[i], i)
+			}
+		}
 	} else {
-		_, _, retLogs, cerr = evm.Call(vm.AccountRef(originAddr), nodeAddr(t.ID), nil, rootGas, new(big.Int).SetUint64(t.Val))
+		topLevel(t, nil, 0)
 	}
 	curTrace = nil
-	if cerr != nil {
-		out.Err = cerr.Error()
-	}
-	for _, l := range retLogs {
-		out.RetLogs = append(out.RetLogs, fmtRetLog(l))
-	}
 	out.Sweep1 = sweep(adb, universe, true)
-	for _, l := range adb.GetLogs(txHashA) {
-		out.Logs = append(out.Logs, fmtLog(l))
-	}
 	out.Root = adb.IntermediateRoot(true)
 	root2, err := adb.Commit(true)
 	if err == nil {
@@ -560,7 +586,7 @@ func shrink(t *Node, which, class string, budget int) *Node {
 					break
 				}
 				ch := n.Items[i].Child
-				if ch == nil || isDead(ch) || isDead(n) {
+				if ch == nil || isDead(ch) || isDead(n) || n.Kind == kSEQ || ch.Pay || ch.Gas != 0 {
 					continue
 				}
 				saved := n.Items
@@ -686,6 +712,20 @@ func judgeTree(r *mon.Run, st *twinStats, t *Node, label string) (nontrivial boo
 	}
 	if nontrivial {
 		r.Count("twin_pairs_nontrivial", 1)
+		if t.Kind == kSEQ {
+			r.Count("twin_multitx_pairs_nontrivial", 1)
+		}
+		again := false
+		t.walk(func(n, _ *Node, _ int, _ bool) {
+			for _, it := range n.Items {
+				if it.Op == "again" {
+					again = true
+				}
+			}
+		}, nil, 0, false)
+		if again {
+			r.Count("twin_revisit_pairs_nontrivial", 1)
+		}
 		r.Distinct("twin_nontrivial", treeJSON(t))
 		if traceOK {
 			for _, c := range cells {
@@ -788,6 +828,11 @@ func unionStrings(a, b []string) []string {
 
 // twinSignature: C12:<twin|static>:<class group>:<dead frame kind/mode>:<culprit ops> of the minimal program.
 func twinSignature(min *Node, mp *pairResult) string {
+	if ops := leafOps(min); len(ops) == 1 && ops[0] == "end:codestore" {
+		// a creation that runs out of gas while storing its code is reported failed but not
+		// rolled back (tracked as C11:create:codestore-oog-not-reverted); one signature for all its shapes
+		return "C12:create:codestore-oog"
+	}
 	which, vd := mp.verdict()
 	prefix := "twin"
 	allStatic := len(mp.Dead) > 0
